@@ -3,6 +3,7 @@ package checks
 import (
 	"fmt"
 	"net/url"
+	"strings"
 	"time"
 
 	"github.com/olareg/olareg/config"
@@ -128,6 +129,57 @@ func c12Scenarios(tier string, withClose bool) []*h.Scenario {
 				return fmt.Sprint(r.Status)
 			}}},
 			{h.Step{Name: "cancel the context", Do: func(w *h.World) string { w.M.(*h.CancelCtx).Cancel(); return "cancelled" }}},
+		}})
+		// every kind of handler racing with a pending collection tick, and with Close
+		handlers := []h.Step{
+			reqStep("GET blob", func(w *h.World) h.Req { return h.Req{Method: "GET", Path: "/v2/r/blobs/" + f.Items["l1"].Dig} }),
+			reqStep("DELETE blob", func(w *h.World) h.Req { return h.Req{Method: "DELETE", Path: "/v2/r/blobs/" + f.Items["c"].Dig} }),
+			reqStep("POST upload (monolithic)", func(w *h.World) h.Req {
+				return h.Req{Method: "POST", Path: "/v2/r/blobs/uploads/", Query: "digest=" + url.QueryEscape(f.Items["l2"].Dig), Body: f.Items["l2"].Data}
+			}),
+			reqStep("POST mount from the same repository", func(w *h.World) h.Req {
+				return h.Req{Method: "POST", Path: "/v2/r/blobs/uploads/", Query: "mount=" + url.QueryEscape(f.Items["l2"].Dig) + "&from=r"}
+			}),
+			reqStep("POST mount from another repository", func(w *h.World) h.Req {
+				return h.Req{Method: "POST", Path: "/v2/r2/blobs/uploads/", Query: "mount=" + url.QueryEscape(f.Items["l1"].Dig) + "&from=r"}
+			}),
+			reqStep("PUT manifest with subject", func(w *h.World) h.Req {
+				return h.Req{Method: "PUT", Path: "/v2/r/manifests/" + f.Items["A2"].Dig, Body: f.Items["A2"].Data, Header: map[string]string{"Content-Type": mtImg}}
+			}),
+			reqStep("GET manifest", func(w *h.World) h.Req {
+				return h.Req{Method: "GET", Path: "/v2/r/manifests/t", Header: map[string]string{"Accept": mtImg}}
+			}),
+			reqStep("DELETE manifest", func(w *h.World) h.Req { return h.Req{Method: "DELETE", Path: "/v2/r/manifests/t"} }),
+			reqStep("GET referrers", func(w *h.World) h.Req { return h.Req{Method: "GET", Path: "/v2/r/referrers/" + f.Items["I1"].Dig} }),
+		}
+		for hi, hs := range handlers {
+			hs := hs
+			popE := func(w *h.World) {
+				populate(w, "r")
+				mustStatus(w.PushBlob("r", f.Items["e"].Data, f.Items["e"].Dig), 201)
+			}
+			if tier == "thorough" || hi%2 == 0 || strings.Contains(hs.Name, "mount") {
+				add("tick-vs-"+strings.ReplaceAll(strings.ToLower(hs.Name), " ", "-"), &h.Scenario{Conf: gcConf(3), Prefix: popE, PendingTick: true, Threads: [][]h.Step{{hs}}})
+			}
+			if withClose && (tier == "thorough" || hi%2 == 1 || strings.Contains(hs.Name, "mount")) {
+				add("close-vs-"+strings.ReplaceAll(strings.ToLower(hs.Name), " ", "-"), &h.Scenario{Conf: gcConf(3), Prefix: popE, Threads: [][]h.Step{
+					{h.Step{Name: "Close", Do: func(w *h.World) string {
+						if err := w.S.Close(); err != nil {
+							return "close error"
+						}
+						return "closed"
+					}}},
+					{hs},
+				}})
+			}
+		}
+		// the rate limit bookkeeping under concurrent requests from one address
+		add("ratelimit-same-address", &h.Scenario{Conf: &h.Conf{Name: store, Store: store, Mod: func(c *config.Config) { c.API.RateLimit = 2 }}, Threads: [][]h.Step{
+			{reqStep("GET /v2/ from A", func(w *h.World) h.Req { return h.Req{Method: "GET", Path: "/v2/", Remote: "10.0.0.1:1"} })},
+			{reqStep("GET /v2/ from A", func(w *h.World) h.Req { return h.Req{Method: "GET", Path: "/v2/", Remote: "10.0.0.1:2"} })},
+			{reqStep("GET /v2/ from A (X-Forwarded-For)", func(w *h.World) h.Req {
+				return h.Req{Method: "GET", Path: "/v2/", Remote: "10.9.9.9:3", Header: map[string]string{"X-Forwarded-For": "10.0.0.1"}}
+			})},
 		}})
 		// expiry of the repository cache entry (directory store: pruneAge -> gc under the cache mutex)
 		add("repo-expiry-vs-requests", &h.Scenario{Conf: gcConf(3), Prefix: func(w *h.World) { populate(w, "r"); populate(w, "other") }, Due: 67 * time.Minute, Threads: [][]h.Step{
